@@ -153,6 +153,14 @@ class NestedParent(WrappingQuery):
         def is_active(self):
             return self._nextdoc is not None
 
+        def copy(self):
+            # (the child matcher is already past the current parent's children:
+            # the copy takes over the gathered state as it is)
+            m = self.__class__.__new__(self.__class__)
+            m.__dict__.update(self.__dict__)
+            m.child = self.child.copy()
+            return m
+
         def supports_block_quality(self):
             return False
 
@@ -348,6 +356,22 @@ class NestedChildren(WrappingQuery):
 
         def is_active(self):
             return self._nextchild < self._nextparent
+
+        def copy(self):
+            m = self.__class__.__new__(self.__class__)
+            m.__dict__.update(self.__dict__)
+            m.child = self.child.copy()
+            return m
+
+        def supports_block_quality(self):
+            # (the child matcher's blocks are blocks of parents)
+            return False
+
+        def skip_to(self, id):
+            # (self.child is the matcher of the wanted parents, which is already
+            # one parent ahead: step through the children)
+            while self.is_active() and self.id() < id:
+                self.next()
 
         def replace(self, minquality=0):
             return self
